@@ -45,6 +45,8 @@ static int targ[16];
 static m_thpool_t *pool;
 static int pool_watch = -1;
 static int add_failed;
+static int follow[16];                  /* VP_FOLLOW="1:3,2:4": task 1 submits task 3 to its own pool while it runs, ... */
+static int nfollow;
 
 static int spec_id(lthread *t) { return t->kind == 0 ? -1 : t->kind == 1 ? -(1 + t->idx) : t->idx; }
 static lthread *worker(int w) { for (int i = 0; i < MAXT; i++) if (LT[i].used && LT[i].kind == 2 && LT[i].idx == w) return &LT[i]; return NULL; }
@@ -131,6 +133,8 @@ static void *task_fn(void *arg) {
     if (t < 1 || t > ntasks || targ[t] != 1000 + t) { TS[0].badarg++; t = 0; }
     vp_yield(OP_TASKBEGIN, t);
     TS[t].begun++;
+    /* a refused follow-up (pool shutting down) is the spec's WNRefuse path, not a failure */
+    if (t > 0 && follow[t]) (void)m_thpool_add(pool, task_fn, &targ[follow[t]]);
     vp_yield(OP_TASKEND, t);
     TS[t].ended++;
     return NULL;
@@ -185,7 +189,7 @@ static int expect_op(const char *act) {
         {"MCreate", OP_CREATE}, {"MStart", OP_START}, {"MJoinSubs", OP_JOINSUBS}, {"ALock", OP_LOCK}, {"ACreate", OP_CREATE},
         {"ASignal", OP_SIGNAL}, {"AUnlock", OP_UNLOCK}, {"WLock", OP_LOCK}, {"WCondWait", OP_CONDWAIT}, {"WRelock", OP_RELOCK},
         {"WUnlockRun", OP_UNLOCK}, {"WTaskBegin", OP_TASKBEGIN}, {"WTaskEnd", OP_TASKEND}, {"WExitBcast", OP_BCAST},
-        {"WExitUnlock", OP_UNLOCK}, {"FLock", OP_LOCK}, {"FBroadcast", OP_BCAST}, {"FUnlock", OP_UNLOCK}, {"FJoin", OP_JOIN},
+        {"WExitUnlock", OP_UNLOCK}, {"WNLock", OP_LOCK}, {"WNRefuse", OP_UNLOCK}, {"WNCreate", OP_CREATE}, {"WNSignal", OP_SIGNAL}, {"WNUnlock", OP_UNLOCK}, {"FLock", OP_LOCK}, {"FBroadcast", OP_BCAST}, {"FUnlock", OP_UNLOCK}, {"FJoin", OP_JOIN},
         {"FLock2", OP_LOCK}, {"FCondWait", OP_CONDWAIT}, {"FRelock", OP_RELOCK}, {"FUnlock2", OP_UNLOCK},
         {"FCondDestroy", OP_CDESTROY}, {"FMutexDestroy", OP_MDESTROY}, {NULL, 0}};
     for (int i = 0; M[i].a; i++) if (!strcmp(M[i].a, act)) return M[i].op;
@@ -281,6 +285,8 @@ int main(int argc, char **argv) {
     const char *sp = getenv("VP_SUBS") ? getenv("VP_SUBS") : "2";
     nsubs = 0; ntasks = 0;
     for (const char *p = sp; *p;) { int k = atoi(p); nsubs++; ntasks_of[nsubs] = k; first_task[nsubs] = ntasks + 1; ntasks += k; while (*p && *p != ',') p++; if (*p) p++; }
+    /* follow-up tasks get the ids after the submitters' tasks */
+    if (getenv("VP_FOLLOW")) for (const char *p = getenv("VP_FOLLOW"); *p;) { int a = atoi(p); const char *c = strchr(p, ':'); int b = c ? atoi(c + 1) : 0; if (a > 0 && a < 16 && b > 0 && b < 16) { follow[a] = b; if (b > ntasks) ntasks = b; nfollow++; } while (*p && *p != ',') p++; if (*p) p++; }
     vp_alloc_install();
     gw_need_terminal = 1;
     return gw_main(argc, argv);
